@@ -379,7 +379,8 @@ func (s *Server) parseSearchScanBaseTokens(
 						}
 					}
 					t.wheres = append(t.wheres, whereT{
-						name: name,
+						// as the name is stored: without white space around it
+						name: strings.TrimSpace(name),
 						minx: minx,
 						min:  field.ValueOf(smin),
 						maxx: maxx,
@@ -416,7 +417,7 @@ func (s *Server) parseSearchScanBaseTokens(
 					valArr[i] = field.ValueOf(valStr)
 				}
 				t.whereins = append(t.whereins, whereinT{
-					name:   name,
+					name:   strings.TrimSpace(name),
 					valArr: valArr,
 				})
 				continue
